@@ -76,6 +76,7 @@ def golden_env(tier):
 
 
 PROPS = {
+    "C03": sched_check("model_checking", []),
     "C07": lambda *a: __import__("c07").check(*a),
     "C20": sched_check("model_checking", ["listener scenarios run in fine mode: flag and listener-map operations of baselibrary are decision points"]),
     "C06": sched_check("model_checking", []),
